@@ -149,6 +149,28 @@ class Cx:
                 )
         return n
 
+    def guard_cases(self, inst, body, sinks, cases, construct, why="", fa=None):
+        """T1 per arm: a sink shared by several arms (`let timed_out = match state {…}; if timed_out { sink }`) holds
+        a DNF whose alternatives belong to different arms.  cases = [(name, arm_regex, conj)]: every alternative at
+        every sink that carries a literal matching arm_regex must satisfy conj (regex list, over the closure of the
+        alternative).  Alternatives of no listed case are left to other rules.  Returns the case names seen."""
+        fa = fa or self.fa(body)
+        seen = set()
+        for loc, label in sinks:
+            alts = fa.at(loc)
+            if alts is None:
+                continue
+            for alt in alts:
+                for name, arm_rx, conj in cases:
+                    if any(re.fullmatch(arm_rx, l) for l in alt):
+                        seen.add(name)
+                        inst.site(body, loc, "%s [%s]" % (label, name), {"requires": conj})
+                        if not alt_satisfies(alt, conj):
+                            inst.violation(body.path, "%s in %s" % (construct, name),
+                                           "sink `%s` is reachable in case %s without the required guard %s%s" % (label, name, " ∧ ".join(conj), (" — " + why) if why else ""),
+                                           at=body.span_at(loc), detail={"facts_on_offending_path": sorted(alt)[:12]})
+        return seen
+
     # -- T2 PAIR ------------------------------------------------------------------------------------
     def followed_by(self, inst, body, a_sites, b_locs, construct, what_b, exits=None):
         """every path from each A to function return passes through some B"""
@@ -566,3 +588,115 @@ def poly_str(e):
         else:
             terms.append(_fr(c) + "*" + body)
     return " + ".join(terms)
+
+
+def canon_value(cx, body, e, depth=3):
+    """Rewrites multi-definition locals that spell a known combinator into that combinator, bottom-up:
+         match x { Some(v) => v, None => d }          ->  Option::unwrap_or(x, d)
+         if c { a } else { b } with a == b             ->  a
+       so that `let r = opt.unwrap_or(D)` and the equivalent explicit match compare equal."""
+    if not isinstance(e, tuple) or depth <= 0:
+        return e
+    if len(e) == 2 and e[0] == "var" and isinstance(e[1], int):
+        defs = body.defs.get(e[1], [])
+        if 2 <= len(defs) <= 3:
+            fa = cx.fa(body)
+            some_v = none_v = subj = None
+            vals = []
+            for loc, kind, node in defs:
+                de = body.rvalue_expr(node["rv"]) if kind == "assign" else body.call_expr(node)
+                de = canon_value(cx, body, de, depth - 1)
+                vals.append(de)
+                alts = fa.at(loc) or []
+                for alt in alts[:1] if isinstance(alts, list) else list(alts)[:1]:
+                    pass
+                sd = show(de)
+                m = re.fullmatch(r"(.+)@Some\.0", sd)
+                if m and alts and all(("is(%s,Some)" % m.group(1)) in a for a in alts):
+                    some_v, subj = de, m.group(1)
+                else:
+                    none_v = (de, alts)
+            if len(defs) == 2 and some_v is not None and none_v is not None and none_v[1] and all(("is(%s,None)" % subj) in a for a in none_v[1]):
+                base = some_v[1] if some_v[0] == "proj" and len(some_v[2]) == 2 else ("proj", some_v[1], tuple(some_v[2][:-2]))
+                return ("call", "Option::unwrap_or", (base, none_v[0]))
+            if len({show(v) for v in vals}) == 1:
+                return vals[0]
+            if len(defs) == 2:
+                # if a > b { b } else { a }  ==  min(a, b)   (and the mirror image for max)
+                (l0, k0, n0), (l1, k1, n1) = defs
+                x, y = vals
+                sx, sy = show(x), show(y)
+                ax, ay = fa.at(l0) or [], fa.at(l1) or []
+
+                def holds(alts, lits):
+                    return bool(alts) and all(any(l in a for l in lits) for a in alts)
+                x_le_y = ["lt(%s,%s)" % (sx, sy), "le(%s,%s)" % (sx, sy)]
+                y_le_x = ["lt(%s,%s)" % (sy, sx), "le(%s,%s)" % (sy, sx)]
+                if holds(ax, x_le_y) and holds(ay, y_le_x):
+                    return ("call", "Ord::min", tuple(sorted((x, y), key=show)))
+                if holds(ax, y_le_x) and holds(ay, x_le_y):
+                    return ("call", "Ord::max", tuple(sorted((x, y), key=show)))
+        return e
+    return tuple(canon_value(cx, body, c, depth) if isinstance(c, tuple) else c for c in e)
+
+
+def _subst_args(e, args):
+    if isinstance(e, tuple):
+        if len(e) == 2 and e[0] == "arg" and isinstance(e[1], int) and 1 <= e[1] <= len(args):
+            return args[e[1] - 1]
+        return tuple(_subst_args(c, args) for c in e)
+    return e
+
+
+def _has_leaf(e, kinds):
+    if isinstance(e, tuple):
+        if e and e[0] in kinds and len(e) == 2:
+            return True
+        return any(_has_leaf(c, kinds) for c in e)
+    return False
+
+
+def pure_summary(R, path):
+    """the return expression of a crate-local function that is a single side-effect-free expression of its
+    parameters (no multi-definition locals, no writes through its parameters, no calls that take `&mut`), or None"""
+    cache = getattr(R, "_pure_cache", None)
+    if cache is None:
+        cache = R._pure_cache = {}
+    if path in cache:
+        return cache[path]
+    cache[path] = None
+    try:
+        b = R.body(path)
+    except Exception:
+        return None
+    if b.path != path:
+        return None
+    try:
+        e = b.local_expr(0)
+    except RecursionError:
+        return None
+    if _has_leaf(e, ("var", "rec")) or len(show(e)) > 400:
+        return None
+    for loc, node, ps in b.field_writes(r".*"):
+        return None
+    for loc, t in b.calls():
+        for a in t["args"]:
+            if a["k"] in ("copy", "move") and b.locals[a["pl"]["l"]]["ty"].startswith("&mut"):
+                return None
+    cache[path] = e
+    return e
+
+
+def inline_pure(R, e, keep=(), depth=3):
+    """expression with calls to small pure crate-local helpers replaced by their bodies (so that a predicate that was
+    extracted into a private helper compares equal to the inline test); callees named in `keep` are left alone"""
+    if not isinstance(e, tuple) or depth <= 0:
+        return e
+    e = tuple(inline_pure(R, c, keep, depth) if isinstance(c, tuple) else c for c in e)
+    if e and e[0] == "call" and e[1] not in keep:
+        hits = [p for p in R.fns if R.short(p) == e[1]]
+        if len(hits) == 1:
+            summ = pure_summary(R, hits[0])
+            if summ is not None:
+                return inline_pure(R, _subst_args(summ, e[2]), keep, depth - 1)
+    return e
